@@ -21,7 +21,7 @@ ASSUMPTIONS = [
     "Candle objects handed to append become owned by the library; only dicts and lists are required to stay unchanged",
     "ISO strings are used as timestamps only in the dict form (the list form documents datetime only)",
 ]
-PARTIAL = ""
+PARTIAL = "accessor purity holds by construction in the model (accessors are functions of the state); that the CODE has no hidden side effects and that all input encodings agree is established by correspondence (access, hexital.access) and oracle; proved: append delivers the same candles to every timeframe's manager"
 
 
 def oracle(ctx):
